@@ -79,6 +79,26 @@ def jobs_for(tier, rnd):
             jobs.append((gid + 1, dx, TX, dict(opts, role='explicit')))
             pairs[gid] = gid + 1
             gid += 2
+    # several patterns of which an EARLIER one is a sequence that can match its first token and then fail, while a
+    # later one matches text with the same beginning (the position must be restored between the patterns of a round);
+    # no explicit twin here (literals of an ignore pattern skip too): judged by the model and the specification
+    multis = [
+        ['ignore Pr = "#" >> "_"', 'ignore Cm = /#[ ]?/'],
+        ['ignore Pr = ["#", "#", "_"]', 'ignore Cm = "#"', 'ignore " "'],
+        ['ignore Pr = "#" >> ("_" | "##")', 'ignore /#/'],
+        ['ignore /[ ]+/', 'ignore Pr = "#" >> "_"', 'ignore Cm = "#" >> "#"'],
+    ]
+    shapes = [('rep', ('ref', 'X'), None, None), ('seq', ('ref', 'X'), ('opt', ('lit', 'b'))), ('sep', ('ref', 'X'), ('lit', 'b'), (True, True, True, False)),
+              ('alt', ('seq', ('lit', 'a'), ('lit', 'b')), ('rep', ('lit', 'a'), 1, None)), ('seq', ('expect', ('lit', 'a')), ('rep', ('rx', '[ab]'), None, None))]
+    TXM = G.texts('a#_ ', 4, extra=('a# b', 'a#_b', 'a##_a', 'a## a', '#a#', 'a #_ #a', 'a#  a', '##a', 'a###', 'a#_#a', 'ab#', 'a# #_a'))
+    for decls in multis:
+        for e in shapes:
+            for where in ('before', 'after'):
+                for klass in (False, True):
+                    body = f'class Start {{\n  x: {G.render(e)}\n  y: Opt("b")\n}}' if klass else f'start = {G.render(e)}'
+                    parts = (decls + [body, 'X = "a" | "ba"']) if where == 'before' else ([body, 'X = "a" | "ba"'] + decls)
+                    jobs.append((gid, '\n'.join(parts) + '\n', TXM, {'ign': 'multi', 'where': where, 'klass': klass, 'role': 'ignore-multi'}))
+                    gid += 1
     return jobs, pairs
 
 
